@@ -258,6 +258,8 @@ def apply_contract(I, c, qn, args, kwargs, fr, site, finfo=None):
     exc = VExc(out, [])
     sf.locals["exc"] = exc
     if isinstance(cond, dict):
+        newg = {g: I.E.eval_spec_in(I, e, sf) for g, e in (cond.get("ghost") or {}).items()}
+        st.ghost.update(newg)
         for e in cond.get("ensures", []):
             st.assume(zbool(I.truthy(I.E.eval_spec_in(I, e, sf))))
         cond = cond.get("when", "True")
